@@ -322,7 +322,7 @@ class C02(Property):
     id = "C02"
     prop_modules = ["CobaVerif.Props.C02"]
     quick_n = 250
-    thorough_n = 5000
+    thorough_n = 4000
     search_n = 160
     case_timeout = 120
     workers = 8
@@ -408,7 +408,75 @@ class C02(Property):
             os.makedirs(os.path.dirname(path), exist_ok=True)
             with open(path, "w", encoding="utf-8") as f:
                 f.write(body)
-        return [note]
+        return [note, self.pre_build_scan(repo)]
+
+    def pre_build_scan(self, repo):
+        """phase 4 translator step (ast): read size, decompressor parameters and statement shape of the gz member scan of
+        Experiment._drop_torn_tail -> lean/CobaVerif/Generated/C02ScanConsts.lean; Props proves `scan_consts_as_modelled`"""
+        import ast
+        labels = ["for:iter-read-sentinel-b''", "try:member.decompress(chunk)", "except:zlib.error:break", "if:member.eof",
+                  "good=f.tell()-len(member.unused_data)", "f.seek(good)", "member=zlib.decompressobj", "after:f.truncate(good)"]
+        read_size, wbits, shape, why = None, [], [], None
+        try:
+            with open(os.path.join(repo, "coba/experiments/core.py"), encoding="utf-8") as f:
+                tree = ast.parse(f.read())
+            fn = next(n for n in ast.walk(tree) if isinstance(n, ast.FunctionDef) and n.name == "_drop_torn_tail")
+            loop = next(n for n in ast.walk(fn) if isinstance(n, ast.For))
+            branch = next(n for n in ast.walk(fn) if isinstance(n, ast.If) and loop in n.body)
+            u = ast.unparse
+            it = loop.iter
+            if (isinstance(it, ast.Call) and u(it.func) == "iter" and len(it.args) == 2 and isinstance(it.args[0], ast.Lambda)
+                    and isinstance(it.args[0].body, ast.Call) and u(it.args[0].body.func) == "f.read" and len(it.args[0].body.args) == 1
+                    and isinstance(it.args[0].body.args[0], ast.Constant) and isinstance(it.args[0].body.args[0].value, int)
+                    and isinstance(it.args[1], ast.Constant) and it.args[1].value == b"" and u(loop.target) == "chunk"):
+                read_size = it.args[0].body.args[0].value
+                shape.append(labels[0])
+            for c in ast.walk(branch):
+                if isinstance(c, ast.Call) and u(c.func) == "zlib.decompressobj":
+                    wbits.append(c.args[0].value if len(c.args) == 1 and not c.keywords and isinstance(c.args[0], ast.Constant) and isinstance(c.args[0].value, int) else -1)
+            body = loop.body
+            if len(body) == 2 and isinstance(body[0], ast.Try) and isinstance(body[1], ast.If):
+                t, i = body
+                if len(t.body) == 1 and u(t.body[0]) == "member.decompress(chunk)" and not t.orelse and not t.finalbody:
+                    shape.append(labels[1])
+                if len(t.handlers) == 1 and t.handlers[0].type is not None and u(t.handlers[0].type) == "zlib.error" and [type(x) for x in t.handlers[0].body] == [ast.Break]:
+                    shape.append(labels[2])
+                if u(i.test) == "member.eof" and not i.orelse and len(i.body) == 3:
+                    shape.append(labels[3])
+                    a, b, c = (u(x) for x in i.body)
+                    if a == "good = f.tell() - len(member.unused_data)":
+                        shape.append(labels[4])
+                    if b == "f.seek(good)":
+                        shape.append(labels[5])
+                    if re.fullmatch(r"member = zlib\.decompressobj\(.*\)", c):
+                        shape.append(labels[6])
+            k = branch.body.index(loop)
+            if not loop.orelse and k + 1 < len(branch.body) and u(branch.body[k + 1]) == "f.truncate(good)" and \
+                    k >= 1 and re.fullmatch(r"\(?good, member\)? = \(?0, zlib\.decompressobj\(.*\)\)?", u(branch.body[k - 1])):
+                shape.append(labels[7])
+        except Exception as e:      # code reshaped: the obligation is void, the run is tagged
+            why = repr(e)
+        ok = why is None and read_size is not None
+        path = os.path.join(lean.LEAN_DIR, "CobaVerif", "Generated", "C02ScanConsts.lean")
+        lst = lambda xs: "[" + ", ".join(json.dumps(x, ensure_ascii=False) for x in xs) + "]"
+        if not ok:
+            read_size, wbits, shape = 4096, [31, 31], labels
+        body = ("-- GENERATED by harness/props/c02.py (ast) from coba/experiments/core.py `Experiment._drop_torn_tail` on every run; do not edit.\n"
+                "namespace Coba.Generated.C02Scan\n"
+                "/-- `f.read(N)` of the member scan -/\n"
+                "def readSize : Nat := %d\n"
+                "/-- `zlib.decompressobj(W)`: every decompressor the loop creates (31 = gzip container, 32 KiB window) -/\n"
+                "def wbits : List Int := %s\n"
+                "/-- the statements of the loop that the model mirrors, as found in the source -/\n"
+                "def loopShape : List String := %s\n"
+                "def extracted : Bool := %s\n"
+                "end Coba.Generated.C02Scan\n") % (read_size, lst(wbits), lst(shape), "true" if ok else "false")
+        old = open(path, encoding="utf-8").read() if os.path.exists(path) else None
+        if old != body:
+            with open(path, "w", encoding="utf-8") as f:
+                f.write(body)
+        return ("gz member scan: read size %d, wbits %s, %d/%d loop statements as modelled" % (read_size, wbits, len(shape), len(labels))) if ok else \
+            ("gz member scan could NOT be extracted (%s): obligation scan_consts_as_modelled is about defaults only" % why)
 
     # ---------------------------------------------------------------- generation
     def gen_exp(self, rng, small=False):
@@ -745,6 +813,7 @@ class C02(Property):
                 for n, st_ in enumerate(steps):
                     groups.setdefault(id(st_[1]), []).append(n)
                 nodir_done = []
+                shape_probe_done = []
                 mtbl, mindex = [], {}       # .gz: the gzip members of the real files, [table index of the payload line or -1, bytes]
                 name_bytes = list((name_of(case) if case.get("rel") else full_path).encode("utf-8"))
                 for _, ns in groups.items():
@@ -759,7 +828,48 @@ class C02(Property):
                                 mtbl.append([tindex[line] if line is not None else -1, list(mb)])
                             mlog.append(mindex[mb])
                         req["mtbl"], req["mlog"] = mtbl, mlog
+                        # phase 4: the chunked scan as written is evaluated for the extracted read size (files up to chunk_cap
+                        # bytes) and, on small files, for read sizes 1, 3 and 61 as well (cost is quadratic in the member size)
+                        req["chunk_cap"] = 100000
+                        req["chunk_sizes"] = ([1, 3] if len(lg.data) <= 4000 else []) + ([61] if len(lg.data) <= 40000 else [])
+                    # phase 4: the shape test of run(): counts of the real experiment line, counts of the experiment given
+                    try:
+                        meta = json.loads(bytes(table[exp_i][6]).decode("utf-8"))[1]
+                        req["exp_shape"] = [int(meta.get("n_learners", -1)), int(meta.get("n_environments", -1))]
+                    except Exception:
+                        req["exp_shape"] = [-1, -1]
+                    # phase 4: ChunkTasks/ProcessTasks order: which environment ids sit behind a Chunk pipe (each chunk()ed environment
+                    # has its own), and maxtasksperchunk of the configuration these cuts are resumed with
+                    chf = case.get("chunk")
+                    em_ = ids_of(case)[0]
+                    chunk_of = [-1] * len(em_)
+                    for eo, eid in em_.items():
+                        if chf is True or (isinstance(chf, (list, tuple)) and eo < len(chf) and chf[eo]):
+                            chunk_of[eid] = eid
+                    req["chunk_of"] = chunk_of
+                    req["max_tasks"] = int(steps[ns[0]][4].get("maxtasksperchunk", 0) or 0)
+                    tr0 = build(case, trace)._triples
+                    real_given = [len(set([l for _, l, _ in tr0])), len(set([e for e, _, _ in tr0]))]
+                    alt = self.alt_case(case, len(lg.data))
+                    tr1 = build(alt, trace)._triples
+                    req["alt_given"] = [len(set([l for _, l, _ in tr1])), len(set([e for e, _, _ in tr1]))]
                     ans = driver.ask(req)
+                    if "given_shape" in ans and list(ans["given_shape"]) != real_given:
+                        fails.append(F("A", "n_learners/n_environments of the experiment given: implementation %s, model %s" % (real_given, ans["given_shape"]), "A:given-shape"))
+                    if "given_shape" in ans and req["exp_shape"] != real_given:
+                        fails.append(F("A", "the experiment line of the uninterrupted log carries n_learners/n_environments %s, the experiment has %s" % (req["exp_shape"], real_given), "A:shape-line"))
+                    if not ans.get("scan_extracted", True):
+                        tags.append("scan-consts:not-extracted")
+                    if "given_shape" in ans and not shape_probe_done:
+                        # a genuinely different experiment (one more learner) on one of the cut files: the shape test fires exactly
+                        # when the model says so; when it fires nothing is evaluated
+                        elig = [(n, mo) for n, mo in zip(ns, ans["cuts"])
+                                if steps[n][0] == "cut" and "mismatch_alt" in mo and len(observed[n]["cut"]) < 300000]
+                        if elig:
+                            # alternately the longest and the first eligible cut (a cut before the experiment line passes the test)
+                            n, mo = max(elig, key=lambda t: len(observed[t[0]]["cut"])) if (len(lg.data) + len(elig)) % 3 else elig[0]
+                            shape_probe_done.append(1)
+                            self.shape_probe(case, alt, d, observed[n]["cut"], mo, fails, tags)
                     dec = ans.get("gz_decision")
                     if dec is not None:
                         if not (dec[0] == dec[1] == dec[2]):
@@ -839,6 +949,15 @@ class C02(Property):
                 fails.append(F("A", "a proper prefix of a record text is valid JSON: %r" % tail[:80], "A:torn-prefix-decodes"))
             except ValueError:
                 pass
+        ff_cut = None
+        if not gz and len(cut) < 300000:
+            # phase 4: Result.from_file on the cut file itself, without resuming (readable or raises)
+            try:
+                from coba.results import Result
+                Result.from_file(path)
+                ff_cut = True
+            except Exception:
+                ff_cut = False
         st, res = run(case, path, trace, cfg)
         final = open(path, "rb").read()
         evaluated = read_trace(trace)
@@ -851,7 +970,7 @@ class C02(Property):
                     fails.append(F("A", "Result.from_file on the resumed file differs from the Result run() returned: " + where, "A:from-file-differs"))
             except Exception as e:
                 fails.append(F("A", "Result.from_file on the resumed file raised %r although run() returned: %s" % (e, where), "A:from-file-raises"))
-        ob = {"path": path, "good": good, "class": cls, "status": st, "evaluated": [list(t) for t in evaluated], "final_data": final, "j": j, "cut": cut,
+        ob = {"path": path, "ff_cut": ff_cut, "good": good, "class": cls, "status": st, "evaluated": [list(t) for t in evaluated], "final_data": final, "j": j, "cut": cut,
               "restored_n": j, "ntasks": 0, "final_readable": False, "kept_records": j}
         recorded = set()      # object triples with an I record among the complete lines of the cut file
         recorded_rows = {}
@@ -906,6 +1025,43 @@ class C02(Property):
         ob["bfail"] = len([f for f in fails if f["kind"] == "B"]) > nb0
         return ob
 
+    def alt_case(self, case, salt):
+        """a genuinely different experiment: one learner more, or (every other time, when there are two) one learner less"""
+        nl = len(case["lrns"])
+        tr = case.get("triples")
+        if nl >= 2 and salt % 2 == 1 and (tr is None or any(t[1] != nl - 1 for t in tr)) and \
+                (tr is None or len(set(t[1] for t in tr)) != len(set(t[1] for t in tr if t[1] != nl - 1))):
+            alt = dict(case, lrns=list(case["lrns"])[:-1], rel=False)
+            if tr is not None:
+                alt["triples"] = [list(t) for t in tr if t[1] != nl - 1]
+            for key in ("empty", "boom"):
+                if case.get(key):
+                    alt[key] = [p_ for p_ in case[key] if p_[1] != nl - 1]
+            alt["_alt"] = "one learner less"
+            return alt
+        alt = dict(case, lrns=list(case["lrns"]) + [{"p": 0}], rel=False)
+        if tr is not None:
+            alt["triples"] = [list(t) for t in tr] + [[tr[0][0], nl, tr[0][2]]]
+        alt["_alt"] = "one learner more"
+        return alt
+
+    def shape_probe(self, case, alt, d, cut, mo, fails, tags):
+        pa = file_at(d, "alt", case)
+        ta = os.path.join(d, "alt.trace")
+        with open(pa, "wb") as f:
+            f.write(cut)
+        if os.path.exists(ta):
+            os.remove(ta)
+        st, _ = run(alt, pa, ta, CFG1)
+        if st != "ok":
+            return
+        aborted = not read_trace(ta)
+        tags.append("shape-test:%s:%s" % (alt["_alt"].replace(" ", "-"), "fires" if mo["mismatch_alt"] else "passes"))
+        if aborted != bool(mo["mismatch_alt"]):
+            fails.append(F("A", "an experiment with %s run on the cut log (%d bytes): implementation %s, model %s" % (
+                alt["_alt"], len(cut), "evaluates nothing (shape test fired)" if aborted else "evaluates", "shape test fires" if mo["mismatch_alt"] else "shape test passes"),
+                "A:shape-test:" + ("missed" if mo["mismatch_alt"] else "spurious")))
+
     def compare(self, case, step, ob, mo, hyp, flags, table, fails, tags):
         """(A) model vs implementation on one cut, (C) model vs spec"""
         label, lg, lidx, k, cfg = step
@@ -926,6 +1082,19 @@ class C02(Property):
         if gz and ob.get("good") is not None and "good" in mo and mo["good"] != ob["good"]:
             fails.append(F("A", "%s: _drop_torn_tail leaves %d bytes of the .gz file, the model's member scan %d" % (where, ob["good"], mo["good"]),
                            "A:gz-member-scan:" + sigc))
+        if gz and ob.get("good") is not None:
+            for c_, g_ in mo.get("good_chunked", []):
+                tags.append("chunk-scan:c=%d" % c_)
+                if g_ != ob["good"]:
+                    fails.append(F("A", "%s: _drop_torn_tail leaves %d bytes of the .gz file, the scan loop as written (model, read size %d) %d"
+                                   % (where, ob["good"], c_, g_), "A:gz-chunk-scan:" + sigc))
+        if not gz and ob.get("ff_cut") is not None and "from_file_cut" in mo:
+            tags.append("from-file-on-cut:" + ("readable" if ob["ff_cut"] else "raises"))
+            if bool(mo["from_file_cut"]) != ob["ff_cut"]:
+                fails.append(F("A", "%s: Result.from_file on the cut file (no resuming): implementation %s, model %s" % (
+                    where, "readable" if ob["ff_cut"] else "raises", "readable" if mo["from_file_cut"] else "raises"), "A:from-file-cut:" + sigc))
+        if mo.get("mismatch"):
+            fails.append(F("A", "%s: the model's n_learners/n_environments test fires on a log of the same experiment" % where, "A:shape-test-own-log:" + sigc))
         if not gz and "n_complete" in mo:
             want = ob["j"] + (1 if ob["class"] == "unterminated" else 0)
             if mo["n_complete"] != want:
@@ -970,6 +1139,15 @@ class C02(Property):
         if (rest and not rest.endswith(b"\n")) or i_lines != m_lines:
             fails.append(F("A", "%s: records appended by the resumed run differ: implementation %s, model %s" % (
                 where, [x[:40] for x in i_lines][:8], [x[:40] for x in m_lines][:8]), "A:appended:" + sigc))
+        elif "appended_ordered" in mo and cfg.get("processes", 1) == 1 and not cfg.get("maxchunksperchild", 0):
+            # phase 4: single process: the ORDER of the appended records is the ChunkTasks/ProcessTasks order of the model
+            i_seq = rest.split(b"\n")[:-1] if rest else []
+            m_seq = [bytes(table[i][6]) for i in mo["appended_ordered"]]
+            if len(m_seq) > 1:
+                tags.append("run-order:" + ("as-maketasks" if m_seq == [bytes(table[i][6]) for i in mo["appended"]] else "differs-from-maketasks"))
+            if i_seq != m_seq:
+                fails.append(F("A", "%s: ORDER of the records appended by the single-process resumed run: implementation %s, model (ChunkTasks/ProcessTasks order) %s" % (
+                    where, [x[:24] for x in i_seq][:10], [x[:24] for x in m_seq][:10]), "A:appended-order:" + sigc))
         if ob["status"] == "ok" and "result_equal" in ob and bool(mo["result_equal"]) != bool(ob["result_equal"]):
             fails.append(F("A", "%s: final Result equals the uninterrupted one: implementation %s, model %s" % (where, ob["result_equal"], mo["result_equal"]),
                            "A:result-equal:" + sigc))
